@@ -40,3 +40,5 @@ chmod 644 *
 # and public key, as some Java libraries write it; "-opt": a back end may refuse it) - all three written by a few lines of
 # Python from the scalar of p256_1 / a fixed seed
 # ed25519_8v2np: PKCS#8 with version 1 (v2) but WITHOUT the public key that v2 may carry (aws-lc-rs loads it, ring does not: "np")
+# round 8: ed25519_7algrsa / 7algec, p256_7algs, p384_7algs: the secret contains complete AlgorithmIdentifier ENCODINGS (with
+# their SEQUENCE headers) of the other key types; ed25519_7words: the PEM body spells ENCRYPTED, PRIVATE, BEGIN, END, RSA, EC
